@@ -88,6 +88,14 @@ CLAIMED = {
         "no clock/RNG/environment/cwd/identity value is reachable from the generator; serialisers sort keys.",
         "Assumes dict / protobuf container iteration is insertion-ordered and third-party serialisers are deterministic.",
         "DESIGN.md 4/C10"),
+    "C11": (
+        "abstract evaluation of the extracted replace chain on the template tree; CFG dominance; set computations; regex-AST shape; raise-freedom",
+        "Decides the substitution order and sources of _get_filename and that every on-disk template path maps to a normalised relative "
+        "name for every empty/non-empty variable choice; private/empty skipping and dict-keyed accumulation; __init__ coverage of "
+        "package directories; target-only iteration; the version regex shape (v<n>[p<n>][alpha|beta<n>]) and versioned module names; "
+        "override order; proto3-optional flag dominance; and that the option loop cannot raise or mis-unpack.",
+        "Assumes module names produced by to_snake_case / file-name sanitising are valid path segments.",
+        "DESIGN.md 4/C11"),
     "C12": (
         "sibling cross-check of renaming sites against one predicate shape (ast patterns) + name-kind typing of identifier holes in skeletons",
         "Decides that every proto-name to Python-name site applies `x + '_' iff x in RESERVED_NAMES` over the one literal (so the ~70-word "
